@@ -135,9 +135,17 @@ func vfC30ExecCand(c vfC30Case) {
 	if err != nil || pcA.SetLocalDescription(offer) != nil || pcB.SetRemoteDescription(offer) != nil {
 		return
 	}
+	// Local: 1 = the connection is closed before the (late, trickled) candidates arrive,
+	//        2 = closed after the first half of them
+	if c.Local == 1 {
+		_ = pcB.Close()
+	}
 	mid := "0"
 	idx := uint16(0)
 	for i, l := range c.Lines {
+		if c.Local == 2 && i == len(c.Lines)/2 {
+			_ = pcB.Close()
+		}
 		init := ICECandidateInit{Candidate: l}
 		switch i % 3 {
 		case 1:
@@ -825,7 +833,7 @@ var vfC30CandBase = []string{
 
 func vfC30GenCand(v *vfT) vfC30Case {
 	t := v.R
-	c := vfC30Case{Kind: "cand"}
+	c := vfC30Case{Kind: "cand", Local: rapid.SampledFrom([]int{0, 0, 1, 2}).Draw(t, "close")}
 	n := rapid.IntRange(1, 8).Draw(t, "n")
 	for i := 0; i < n; i++ {
 		s := rapid.SampledFrom(vfC30CandBase).Draw(t, "base")
@@ -941,7 +949,7 @@ func vfC30GenLive(v *vfT) vfC30Case {
 }
 
 var vfC30Opts = vfOpts{
-	Rule: "hostile remote inputs executed in a worker subprocess: (sdp) line-level mutations (delete, duplicate, swap, truncate, hostile numbers, hostile attribute lines, drop-all-of-a-kind, unsupported codecs, oversize) of pion-generated and browser-style offers/answers under unified / plan-b / fallback semantics, applied as remote offer (then CreateAnswer + SetLocalDescription + queue drain) or as remote answer; (cand) mutated candidate strings into AddICECandidate; (rtp) hostile RTP/RTCP written through the sender's SRTP session to a connected peer; (live) a pair that really connects while its offer/answer text is edited in flight (codec renames, dropped attribute families, hostile lines), so the work queued behind ICE/DTLS start runs on a live connection; every case counts as non-trivial when it contains at least one mutation",
+	Rule: "hostile remote inputs executed in a worker subprocess: (sdp) line-level mutations (delete, duplicate, swap, truncate, hostile numbers, hostile attribute lines, drop-all-of-a-kind, unsupported codecs, oversize) of pion-generated and browser-style offers/answers under unified / plan-b / fallback semantics, applied as remote offer (then CreateAnswer + SetLocalDescription + queue drain) or as remote answer; (cand) mutated (and valid) candidate strings into AddICECandidate, also after the connection was closed; (rtp) hostile RTP/RTCP written through the sender's SRTP session to a connected peer; (live) a pair that really connects while its offer/answer text is edited in flight (codec renames, dropped attribute families, hostile lines), so the work queued behind ICE/DTLS start runs on a live connection; every case counts as non-trivial when it contains at least one mutation",
 	Assumptions: []string{"crash = death of the worker process while the case is in flight (covers panics in background goroutines)", "a hang is reported only with the worker's dump of blocked pion goroutines"},
 }
 
